@@ -192,6 +192,9 @@ async fn port_actor(idx: usize, mode: Mode, mut tx: chmux::Sender, mut rx: chmux
                 Err(_) => {
                     // Size / port count limits: the stream continues.
                     kit::probe("a_recv_limit_error");
+                    if kit::spinning() {
+                        return;
+                    }
                 }
             }
         }
